@@ -4,9 +4,61 @@ from hplverif import astx, core, ev, gen, lib, mast, small, values
 
 
 def parse_case(inp):
-    """inp: {'kind','text',...} -> library AST or None when the parser rejects it."""
+    """inp: {'kind','text', 'pre'?: [steps]} -> library AST (after the optional pipeline of API functions) or None when
+    the parser rejects the text or a step of the pipeline does not apply."""
     k, a = lib.outcome(inp['kind'], inp['text'])
-    return a if k == 'ast' else None
+    if k != 'ast':
+        return None
+    if inp.get('pre'):
+        return apply_pre(a, inp['pre'])
+    return a
+
+
+PRE_STEPS = ('simplify', 'negate', 'split_first', 'split_last', 'refactor_1', 'refactor_2', 'join_self', 'this_var_this')
+
+
+def apply_pre(a, pre):
+    """The input of simplify need not come from the parser: apply a pipeline of other API functions to the parsed AST
+    first (their results are predicates / expressions like any other). Returns None when a step does not apply."""
+    from hpl import rewrite as rw
+    from hpl.ast import Not
+
+    for step in pre:
+        pred = bool(getattr(a, 'is_predicate', False))
+        boolean = pred or (getattr(a, 'is_expression', False) and a.data_type.value == 1)
+        try:
+            if step == 'simplify':
+                a = rw.simplify(a)
+            elif step == 'negate':
+                if not boolean:
+                    return None
+                a = a.negate() if pred else Not(a)
+            elif step in ('split_first', 'split_last'):
+                if not boolean:
+                    return None
+                parts = rw.split_and(a)
+                if not parts:
+                    return None
+                a = parts[0 if step == 'split_first' else -1]
+            elif step in ('refactor_1', 'refactor_2'):
+                if not boolean:
+                    return None
+                a = rw.refactor_reference(a, 'A')[0 if step == 'refactor_1' else 1]
+            elif step == 'join_self':
+                if not pred:
+                    return None
+                a = a.join(a.negate().negate())
+            elif step == 'this_var_this':
+                a = rw.replace_var_with_this(rw.replace_this_with_var(a, 'V9'), 'V9')
+            else:
+                raise ValueError(step)
+        except (TypeError, ValueError, AssertionError, AttributeError, KeyError, IndexError, ZeroDivisionError, OverflowError):
+            return None  # whether these functions fail is the business of C14
+        except Exception:
+            return None
+    return a
+
+
 
 
 def envs_for(model, inp, limit, extra=()):
@@ -27,7 +79,18 @@ def random_bool_case(ch, max_depth=5, kinds=('condition', 'predicate', 'expressi
         for _ in range(ch.int(1, 3)):
             m = ('un', 'not', m)
     text = mast.render(('pred', m) if kind == 'predicate' else m)
-    return {'kind': kind, 'text': text, 'this': schema, 'aliases': aliases}
+    # a third of the inputs are not parser output but what another API function made of it
+    pre = []
+    if ch.int(0, 2) == 0:
+        pre = [ch.pick(BOOL_PRE_STEPS) for _ in range(ch.int(1, 2))]
+    return {'kind': kind, 'text': text, 'this': schema, 'aliases': aliases, 'pre': pre}
+
+
+BOOL_PRE_STEPS = ('simplify', 'simplify', 'negate', 'split_first', 'split_last', 'refactor_2', 'join_self', 'this_var_this')
+
+
+def case_key(inp):
+    return (inp['text'], tuple(inp['pre'])) if inp.get('pre') else inp['text']
 
 
 def small_cases(seed, stride, shard_no, nshards, boolean_only=True, quant_stride=None):
@@ -43,6 +106,10 @@ def small_cases(seed, stride, shard_no, nshards, boolean_only=True, quant_stride
         st = stride
         if quant_stride is not None and f.name.startswith('quant'):
             st = max(1, min(stride, quant_stride))
+        if f.density == 'full':
+            st = 1
+        elif f.density != 1:
+            st = max(1, min(st, stride // f.density))
         is_bool = f.name in names
         if boolean_only and not is_bool:
             base += n
